@@ -7,143 +7,554 @@ import (
 	"go/token"
 	"go/types"
 	"path/filepath"
-	"strconv"
+	"sort"
 	"strings"
 )
 
 // C16: the redaction mask of netutil/urlutil.
 //
-// The mask is not a named constant but a package-level variable initialised by a call,
+// The mask is found by what it IS, not by a name: it is the *url.Userinfo value that
+// RedactUserinfo (and RedactUserinfoInURLError) put into the User field of the URL copy
+// they build.  The translator
 //
-//	var redactedUserinfo = url.UserPassword("xxxxx", "xxxxx")
+//  1. collects the functions of the package reachable from RedactUserinfo and
+//     RedactUserinfoInURLError through calls of package-level functions and methods;
+//  2. finds in them every store into the User field of a net/url.URL
+//     (`x.User = e`, `url.URL{…, User: e}`);
+//  3. follows each stored expression e back to its sources with go/types:
+//     a call url.UserPassword(a, b) / url.User(a) with constant string arguments is a
+//     source; a package-level variable stands for its initialiser (it must be unexported
+//     and never written or address-taken anywhere in the package); a local variable for
+//     everything assigned to it in its function; a parameter for the corresponding
+//     argument at every call site inside the reachable functions; parentheses are
+//     dropped.  Anything else (a field of the input URL, a function result, a
+//     conditional value the translator cannot follow) is outside the subset;
+//  4. demands that RedactUserinfo reaches at least one such store and that ALL sources
+//     denote one and the same (username, password, passwordSet): a second, different mask
+//     means "the result's userinfo is the fixed mask" no longer reads off the source.
 //
-// so the constants table of consts.go cannot carry it.  This translator reads the
-// initialiser: the callee must be url.UserPassword (two constant string arguments,
-// password set) or url.User (one constant string argument, no password), the arguments
-// must be constant expressions (literals or named constants, evaluated by go/types).
-// Anything else is outside the subset and fails loudly.
-//
-// It also records which variable `RedactUserinfo` assigns to the copy's User field, so
-// that the model's "the result's userinfo is redactedUserinfo" is read from the source.
+// Everything else fails loudly.
+
+type c16Mask struct {
+	name, pass string
+	passSet    bool
+	via        string // the package-level variable the value came through, "" if none
+}
+
+type c16Tr struct {
+	pkg   *types.Package
+	info  *types.Info
+	fset  *token.FileSet
+	files []*ast.File
+	funcs map[*types.Func]*ast.FuncDecl
+	// package-level variables: initialiser and writes
+	varInit map[*types.Var]ast.Expr
+	badInit map[*types.Var]string
+	written map[*types.Var]token.Pos
+	reach   map[*ast.FuncDecl]bool
+	order   []*ast.FuncDecl
+	// resolution state
+	busy  map[string]bool
+	masks []c16Mask
+}
+
+func (t *c16Tr) errf(n ast.Node, format string, a ...any) error {
+	pos := t.fset.Position(n.Pos())
+	return fmt.Errorf("%s:%d:%d: outside the translator's subset: %s", filepath.Base(pos.Filename), pos.Line, pos.Column, fmt.Sprintf(format, a...))
+}
+
+func isNetURL(t types.Type, name string) bool {
+	if p, ok := t.(*types.Pointer); ok {
+		t = p.Elem()
+	}
+	nt, ok := t.(*types.Named)
+	return ok && nt.Obj().Pkg() != nil && nt.Obj().Pkg().Path() == "net/url" && nt.Obj().Name() == name
+}
+
+// callee returns the declaration of the package function or method a call invokes.
+func (t *c16Tr) callee(call *ast.CallExpr) *ast.FuncDecl {
+	switch f := ast.Unparen(call.Fun).(type) {
+	case *ast.Ident:
+		if fo, ok := t.info.Uses[f].(*types.Func); ok {
+			return t.funcs[fo]
+		}
+	case *ast.SelectorExpr:
+		if s := t.info.Selections[f]; s != nil && s.Kind() == types.MethodVal {
+			if fo, ok := s.Obj().(*types.Func); ok {
+				return t.funcs[fo]
+			}
+		}
+	}
+	return nil
+}
+
+func (t *c16Tr) markReachable(fd *ast.FuncDecl) {
+	if fd == nil || t.reach[fd] || fd.Body == nil {
+		return
+	}
+	t.reach[fd] = true
+	t.order = append(t.order, fd)
+	ast.Inspect(fd.Body, func(n ast.Node) bool {
+		switch n := n.(type) {
+		case *ast.CallExpr:
+			t.markReachable(t.callee(n))
+		case *ast.Ident:
+			// a function used as a value may be called through it
+			if fo, ok := t.info.Uses[n].(*types.Func); ok {
+				t.markReachable(t.funcs[fo])
+			}
+		}
+		return true
+	})
+}
+
+func (t *c16Tr) constStr(e ast.Expr) (string, error) {
+	if tv, ok := t.info.Types[e]; ok && tv.Value != nil && tv.Value.Kind() == constant.String {
+		return constant.StringVal(tv.Value), nil
+	}
+	return "", t.errf(e, "argument of the mask constructor is not a constant string")
+}
+
+// enclosing returns the function declaration that contains pos.
+func (t *c16Tr) enclosing(pos token.Pos) *ast.FuncDecl {
+	for _, f := range t.files {
+		for _, d := range f.Decls {
+			if fd, ok := d.(*ast.FuncDecl); ok && fd.Pos() <= pos && pos < fd.End() {
+				return fd
+			}
+		}
+	}
+	return nil
+}
+
+// resolve follows e (an expression of type *url.Userinfo) back to its sources.
+func (t *c16Tr) resolve(e ast.Expr, via string) error {
+	switch x := ast.Unparen(e).(type) {
+	case *ast.CallExpr:
+		sel, isSel := ast.Unparen(x.Fun).(*ast.SelectorExpr)
+		if !isSel {
+			return t.errf(e, "userinfo produced by a call other than url.UserPassword / url.User")
+		}
+		id, isID := sel.X.(*ast.Ident)
+		pn, isPkg := t.info.Uses[id].(*types.PkgName)
+		if !isID || !isPkg || pn.Imported().Path() != "net/url" {
+			return t.errf(e, "userinfo produced by a call other than url.UserPassword / url.User")
+		}
+		m := c16Mask{via: via}
+		var err error
+		switch sel.Sel.Name {
+		case "UserPassword":
+			if len(x.Args) != 2 {
+				return t.errf(e, "url.UserPassword: want 2 arguments")
+			}
+			if m.name, err = t.constStr(x.Args[0]); err != nil {
+				return err
+			}
+			if m.pass, err = t.constStr(x.Args[1]); err != nil {
+				return err
+			}
+			m.passSet = true
+		case "User":
+			if len(x.Args) != 1 {
+				return t.errf(e, "url.User: want 1 argument")
+			}
+			if m.name, err = t.constStr(x.Args[0]); err != nil {
+				return err
+			}
+		default:
+			return t.errf(e, "unsupported constructor url.%s", sel.Sel.Name)
+		}
+		t.masks = append(t.masks, m)
+		return nil
+	case *ast.Ident:
+		v, isVar := t.info.Uses[x].(*types.Var)
+		if !isVar {
+			return t.errf(e, "userinfo %s is not a variable", x.Name)
+		}
+		key := fmt.Sprintf("%p", v)
+		if t.busy[key] {
+			return nil // already being followed (a cycle adds no new source)
+		}
+		t.busy[key] = true
+		defer delete(t.busy, key)
+		if v.Pkg() != t.pkg {
+			return t.errf(e, "userinfo variable %s of another package", x.Name)
+		}
+		if v.Parent() == t.pkg.Scope() {
+			if why, bad := t.badInit[v]; bad {
+				return t.errf(e, "package-level variable %s: %s", v.Name(), why)
+			}
+			if v.Exported() {
+				return t.errf(e, "package-level variable %s is exported: importers can reassign the mask", v.Name())
+			}
+			if pos, bad := t.written[v]; bad {
+				return fmt.Errorf("%s: outside the translator's subset: package-level variable %s is written or has its address taken there",
+					t.fset.Position(pos), v.Name())
+			}
+			init := t.varInit[v]
+			if init == nil {
+				return t.errf(e, "package-level variable %s has no initialiser (the mask would be nil)", v.Name())
+			}
+			return t.resolve(init, "urlutil."+v.Name())
+		}
+		fd := t.enclosing(v.Pos())
+		if fd == nil {
+			return t.errf(e, "variable %s is declared outside any function", x.Name)
+		}
+		// a parameter: the arguments at the call sites inside the reachable functions
+		if idx, isParam := paramIndex(t.info, fd, v); isParam {
+			if written := t.assignedIn(fd, v); len(written) > 0 {
+				return t.errf(written[0], "parameter %s is reassigned", x.Name)
+			}
+			sites := 0
+			for _, caller := range t.order {
+				var err error
+				ast.Inspect(caller.Body, func(n ast.Node) bool {
+					call, isCall := n.(*ast.CallExpr)
+					if !isCall || err != nil || t.callee(call) != fd {
+						return true
+					}
+					if idx >= len(call.Args) || call.Ellipsis.IsValid() {
+						err = t.errf(call, "call of %s whose arguments the translator cannot match", fd.Name.Name)
+						return true
+					}
+					sites++
+					err = t.resolve(call.Args[idx], via)
+					return true
+				})
+				if err != nil {
+					return err
+				}
+				// the function used as a value: its arguments are unknown
+				var esc ast.Node
+				ast.Inspect(caller.Body, func(n ast.Node) bool {
+					if call, isCall := n.(*ast.CallExpr); isCall {
+						if t.callee(call) == fd {
+							for _, a := range call.Args {
+								ast.Inspect(a, func(m ast.Node) bool { t.noteEscape(m, fd, &esc); return true })
+							}
+							return false
+						}
+					}
+					t.noteEscape(n, fd, &esc)
+					return true
+				})
+				if esc != nil {
+					return t.errf(esc, "%s is used as a function value: the userinfo it stores cannot be followed", fd.Name.Name)
+				}
+			}
+			if sites == 0 {
+				return t.errf(e, "parameter %s of %s: no call site inside the functions reachable from RedactUserinfo", x.Name, fd.Name.Name)
+			}
+			return nil
+		}
+		// a local variable (or named result): everything assigned to it
+		srcs := t.assignedIn(fd, v)
+		if len(srcs) == 0 {
+			return t.errf(e, "local variable %s is never assigned (nil userinfo)", x.Name)
+		}
+		for _, s := range srcs {
+			if s == nil {
+				return t.errf(e, "local variable %s is assigned from a multi-valued expression", x.Name)
+			}
+			if err := t.resolve(s, via); err != nil {
+				return err
+			}
+		}
+		return nil
+	}
+	return t.errf(e, "userinfo stored into the copy is neither a mask constructor call nor a variable that leads to one (%T)", ast.Unparen(e))
+}
+
+func (t *c16Tr) noteEscape(n ast.Node, fd *ast.FuncDecl, esc *ast.Node) {
+	if id, ok := n.(*ast.Ident); ok && *esc == nil {
+		if fo, isF := t.info.Uses[id].(*types.Func); isF && t.funcs[fo] == fd {
+			*esc = id
+		}
+	}
+}
+
+func paramIndex(info *types.Info, fd *ast.FuncDecl, v *types.Var) (int, bool) {
+	i := 0
+	for _, f := range fd.Type.Params.List {
+		if len(f.Names) == 0 {
+			i++
+		}
+		for _, id := range f.Names {
+			if info.Defs[id] == v {
+				return i, true
+			}
+			i++
+		}
+	}
+	return 0, false
+}
+
+// assignedIn returns the right-hand sides assigned to v inside fd (nil entries for
+// assignments the translator cannot split).
+func (t *c16Tr) assignedIn(fd *ast.FuncDecl, v *types.Var) []ast.Expr {
+	var res []ast.Expr
+	is := func(e ast.Expr) bool {
+		id, ok := ast.Unparen(e).(*ast.Ident)
+		return ok && (t.info.Defs[id] == v || t.info.Uses[id] == v)
+	}
+	ast.Inspect(fd, func(n ast.Node) bool {
+		switch n := n.(type) {
+		case *ast.AssignStmt:
+			for i, l := range n.Lhs {
+				if !is(l) {
+					continue
+				}
+				if len(n.Lhs) == len(n.Rhs) && (n.Tok == token.ASSIGN || n.Tok == token.DEFINE) {
+					res = append(res, n.Rhs[i])
+				} else {
+					res = append(res, nil)
+				}
+			}
+		case *ast.ValueSpec:
+			for i, id := range n.Names {
+				if t.info.Defs[id] != v {
+					continue
+				}
+				switch {
+				case len(n.Values) == len(n.Names):
+					res = append(res, n.Values[i])
+				case len(n.Values) != 0:
+					res = append(res, nil)
+				}
+			}
+		case *ast.RangeStmt:
+			if (n.Key != nil && is(n.Key)) || (n.Value != nil && is(n.Value)) {
+				res = append(res, nil)
+			}
+		case *ast.UnaryExpr:
+			if n.Op == token.AND && is(n.X) {
+				res = append(res, nil) // may be written through the pointer
+			}
+		}
+		return true
+	})
+	return res
+}
 
 func genC16(repo string) (string, error) {
 	dir := filepath.Join(repo, "netutil", "urlutil")
-	_, info, _, files, err := typeCheckDir(dir)
+	pkg, info, fset, files, err := typeCheckDir(dir)
 	if err != nil {
 		return "", err
 	}
+	t := &c16Tr{pkg: pkg, info: info, fset: fset, files: files, funcs: map[*types.Func]*ast.FuncDecl{},
+		varInit: map[*types.Var]ast.Expr{}, badInit: map[*types.Var]string{}, written: map[*types.Var]token.Pos{},
+		reach: map[*ast.FuncDecl]bool{}, busy: map[string]bool{}}
 
-	constStr := func(e ast.Expr) (string, error) {
-		if tv, ok := info.Types[e]; ok && tv.Value != nil && tv.Value.Kind() == constant.String {
-			return constant.StringVal(tv.Value), nil
-		}
-		if bl, ok := e.(*ast.BasicLit); ok && bl.Kind == token.STRING {
-			return strconv.Unquote(bl.Value)
-		}
-		if id, ok := e.(*ast.Ident); ok {
-			if c, isC := info.Uses[id].(*types.Const); isC && c.Val().Kind() == constant.String {
-				return constant.StringVal(c.Val()), nil
-			}
-		}
-		return "", fmt.Errorf("argument of the mask constructor is not a constant string")
-	}
-
-	var found bool
-	var name, pass string
-	var passSet bool
+	seenVar := map[string]bool{}
+	seenFunc := map[string]int{}
 	for _, f := range files {
 		for _, d := range f.Decls {
-			gd, ok := d.(*ast.GenDecl)
-			if !ok || gd.Tok != token.VAR {
-				continue
+			switch d := d.(type) {
+			case *ast.FuncDecl:
+				if fo, ok := info.Defs[d.Name].(*types.Func); ok {
+					t.funcs[fo] = d
+				}
+				if d.Recv == nil {
+					seenFunc[d.Name.Name]++
+				}
+			case *ast.GenDecl:
+				if d.Tok != token.VAR {
+					continue
+				}
+				for _, sp := range d.Specs {
+					vs := sp.(*ast.ValueSpec)
+					for i, id := range vs.Names {
+						v, ok := info.Defs[id].(*types.Var)
+						if !ok {
+							continue
+						}
+						if seenVar[id.Name] {
+							t.badInit[v] = "declared more than once"
+						}
+						seenVar[id.Name] = true
+						switch {
+						case len(vs.Values) == len(vs.Names):
+							t.varInit[v] = vs.Values[i]
+						case len(vs.Values) != 0:
+							t.badInit[v] = "no one-to-one initialiser"
+						}
+					}
+				}
 			}
-			for _, sp := range gd.Specs {
-				vs := sp.(*ast.ValueSpec)
-				for i, id := range vs.Names {
-					if id.Name != "redactedUserinfo" {
+		}
+	}
+	// writes to package-level variables anywhere in the package
+	var root func(e ast.Expr) *types.Var
+	root = func(e ast.Expr) *types.Var {
+		switch e := e.(type) {
+		case *ast.ParenExpr:
+			return root(e.X)
+		case *ast.IndexExpr:
+			return root(e.X)
+		case *ast.StarExpr:
+			return root(e.X)
+		case *ast.SelectorExpr:
+			if id, ok := e.X.(*ast.Ident); ok {
+				if _, isPkg := info.Uses[id].(*types.PkgName); isPkg {
+					return nil
+				}
+			}
+			return root(e.X)
+		case *ast.Ident:
+			if v, ok := info.Uses[e].(*types.Var); ok && v.Parent() == pkg.Scope() {
+				return v
+			}
+		}
+		return nil
+	}
+	mark := func(e ast.Expr) {
+		if v := root(e); v != nil {
+			if _, done := t.written[v]; !done {
+				t.written[v] = e.Pos()
+			}
+		}
+	}
+	for _, f := range files {
+		ast.Inspect(f, func(n ast.Node) bool {
+			switch n := n.(type) {
+			case *ast.AssignStmt:
+				for _, l := range n.Lhs {
+					// `*v = …` and `v.f = …` through a pointer variable write the pointee, which
+					// for the immutable url.Userinfo is impossible from outside net/url; `v = …` is
+					// what replaces the mask
+					mark(l)
+				}
+			case *ast.IncDecStmt:
+				mark(n.X)
+			case *ast.UnaryExpr:
+				if n.Op == token.AND {
+					mark(n.X)
+				}
+			case *ast.RangeStmt:
+				if n.Tok == token.ASSIGN {
+					if n.Key != nil {
+						mark(n.Key)
+					}
+					if n.Value != nil {
+						mark(n.Value)
+					}
+				}
+			}
+			return true
+		})
+	}
+
+	// the two entry points
+	var roots []*ast.FuncDecl
+	for _, name := range []string{"RedactUserinfo", "RedactUserinfoInURLError"} {
+		if seenFunc[name] != 1 {
+			return "", fmt.Errorf("urlutil.%s not found or declared more than once", name)
+		}
+		fo, _ := pkg.Scope().Lookup(name).(*types.Func)
+		if fo == nil || t.funcs[fo] == nil || t.funcs[fo].Body == nil {
+			return "", fmt.Errorf("urlutil.%s not found", name)
+		}
+		roots = append(roots, t.funcs[fo])
+	}
+	for _, r := range roots {
+		t.markReachable(r)
+	}
+	fromRedact := map[*ast.FuncDecl]bool{}
+	{
+		save, saveO := t.reach, t.order
+		t.reach, t.order = map[*ast.FuncDecl]bool{}, nil
+		t.markReachable(roots[0])
+		fromRedact = t.reach
+		t.reach, t.order = save, saveO
+	}
+
+	// stores into the User field of a net/url.URL
+	stores, storesOfRedact := 0, 0
+	for _, fd := range t.order {
+		var ferr error
+		ast.Inspect(fd.Body, func(n ast.Node) bool {
+			if ferr != nil {
+				return false
+			}
+			var stored []ast.Expr
+			switch n := n.(type) {
+			case *ast.AssignStmt:
+				for i, l := range n.Lhs {
+					sel, isSel := ast.Unparen(l).(*ast.SelectorExpr)
+					if !isSel {
 						continue
 					}
-					if found {
-						return "", fmt.Errorf("urlutil.redactedUserinfo declared twice")
+					s := info.Selections[sel]
+					if s == nil || s.Kind() != types.FieldVal || s.Obj().Name() != "User" || !isNetURL(s.Recv(), "URL") {
+						continue
 					}
-					if len(vs.Values) != len(vs.Names) {
-						return "", fmt.Errorf("urlutil.redactedUserinfo: no one-to-one initialiser")
+					if len(n.Lhs) != len(n.Rhs) || n.Tok != token.ASSIGN {
+						ferr = t.errf(n, "store into the User field from a multi-valued or compound assignment")
+						return false
 					}
-					call, isCall := vs.Values[i].(*ast.CallExpr)
-					if !isCall {
-						return "", fmt.Errorf("urlutil.redactedUserinfo: initialiser is not a call")
-					}
-					sel, isSel := call.Fun.(*ast.SelectorExpr)
-					if !isSel {
-						return "", fmt.Errorf("urlutil.redactedUserinfo: initialiser is not a call of package url")
-					}
-					if x, isID := sel.X.(*ast.Ident); !isID || x.Name != "url" {
-						return "", fmt.Errorf("urlutil.redactedUserinfo: initialiser is not a call of package url")
-					}
-					switch sel.Sel.Name {
-					case "UserPassword":
-						if len(call.Args) != 2 {
-							return "", fmt.Errorf("url.UserPassword: want 2 arguments")
-						}
-						if name, err = constStr(call.Args[0]); err != nil {
-							return "", err
-						}
-						if pass, err = constStr(call.Args[1]); err != nil {
-							return "", err
-						}
-						passSet = true
-					case "User":
-						if len(call.Args) != 1 {
-							return "", fmt.Errorf("url.User: want 1 argument")
-						}
-						if name, err = constStr(call.Args[0]); err != nil {
-							return "", err
-						}
-					default:
-						return "", fmt.Errorf("urlutil.redactedUserinfo: unsupported constructor url.%s", sel.Sel.Name)
-					}
-					found = true
+					stored = append(stored, n.Rhs[i])
 				}
-			}
-		}
-	}
-	if !found {
-		return "", fmt.Errorf("urlutil.redactedUserinfo not found")
-	}
-
-	// Which expression does RedactUserinfo store into the User field of its copy?
-	assigned := ""
-	for _, f := range files {
-		for _, d := range f.Decls {
-			fd, ok := d.(*ast.FuncDecl)
-			if !ok || fd.Recv != nil || fd.Name.Name != "RedactUserinfo" || fd.Body == nil {
-				continue
-			}
-			ast.Inspect(fd.Body, func(n ast.Node) bool {
-				as, isAs := n.(*ast.AssignStmt)
-				if !isAs || len(as.Lhs) != 1 || len(as.Rhs) != 1 {
+			case *ast.CompositeLit:
+				tv, ok := info.Types[n]
+				if !ok || !isNetURL(tv.Type, "URL") {
 					return true
 				}
-				if s, isSel := as.Lhs[0].(*ast.SelectorExpr); isSel && s.Sel.Name == "User" {
-					if id, isID := as.Rhs[0].(*ast.Ident); isID {
-						assigned += id.Name + ";"
-					} else {
-						assigned += "<expr>;"
+				for _, el := range n.Elts {
+					kv, isKV := el.(*ast.KeyValueExpr)
+					if !isKV {
+						ferr = t.errf(n, "url.URL literal with positional fields")
+						return false
+					}
+					if id, isID := kv.Key.(*ast.Ident); isID && id.Name == "User" {
+						stored = append(stored, kv.Value)
 					}
 				}
-				return true
-			})
+			}
+			for _, e := range stored {
+				stores++
+				if fromRedact[fd] {
+					storesOfRedact++
+				}
+				if ferr = t.resolve(e, ""); ferr != nil {
+					return false
+				}
+			}
+			return true
+		})
+		if ferr != nil {
+			return "", ferr
 		}
 	}
-	if assigned != "redactedUserinfo;" {
-		return "", fmt.Errorf("RedactUserinfo no longer assigns exactly `redactedUserinfo` to a User field (found %q)", assigned)
+	if storesOfRedact == 0 {
+		return "", fmt.Errorf("RedactUserinfo (with the functions it calls) no longer stores anything into the User field of a url.URL")
+	}
+	if len(t.masks) == 0 {
+		return "", fmt.Errorf("no mask constructor found behind the %d stores into the User field", stores)
+	}
+	m := t.masks[0]
+	var vias []string
+	for _, o := range t.masks {
+		if o.name != m.name || o.pass != m.pass || o.passSet != m.passSet {
+			return "", fmt.Errorf("the userinfo stored by RedactUserinfo / RedactUserinfoInURLError is not one fixed mask: %q:%q (password set: %v) and %q:%q (password set: %v) both reach the User field",
+				m.name, m.pass, m.passSet, o.name, o.pass, o.passSet)
+		}
+		if o.via != "" {
+			vias = append(vias, o.via)
+		}
+	}
+	sort.Strings(vias)
+	what := "the mask stored by `urlutil.RedactUserinfo`"
+	if len(vias) > 0 {
+		what = "`" + vias[0] + "`"
 	}
 
 	var b strings.Builder
 	b.WriteString("namespace GolibsVerif.Gen.C16\n\n")
-	fmt.Fprintf(&b, "/-- username of `urlutil.redactedUserinfo` = %q -/\ndef redactedUsername : List Nat := %s\n\n", name, leanString(name))
-	fmt.Fprintf(&b, "/-- password of `urlutil.redactedUserinfo` = %q -/\ndef redactedPassword : List Nat := %s\n\n", pass, leanString(pass))
-	fmt.Fprintf(&b, "/-- whether `urlutil.redactedUserinfo` has a password (url.UserPassword vs url.User) -/\ndef redactedPasswordSet : Bool := %v\n\n", passSet)
+	fmt.Fprintf(&b, "/-- username of %s = %q -/\ndef redactedUsername : List Nat := %s\n\n", what, m.name, leanString(m.name))
+	fmt.Fprintf(&b, "/-- password of %s = %q -/\ndef redactedPassword : List Nat := %s\n\n", what, m.pass, leanString(m.pass))
+	fmt.Fprintf(&b, "/-- whether %s has a password (url.UserPassword vs url.User) -/\ndef redactedPasswordSet : Bool := %v\n\n", what, m.passSet)
 	b.WriteString("end GolibsVerif.Gen.C16\n")
 	return b.String(), nil
 }
